@@ -2,6 +2,7 @@
 from fractions import Fraction
 
 from ..common import rng
+from ..drivers import behaviours
 from ..drivers import programs, targeted
 from ._twin import replay_programs, run_programs
 
@@ -35,6 +36,20 @@ def check(run, tier):
         else:
             p = programs.worklist_program(r, f"C01/r{i}", dev, r.randint(1, 8))
         progs.append(p)
+    # specification -> code: behaviours enumerated by TLC on the bounded model, replayed on the implementation
+    for cfg in ("MC_TwinGen_mixed2_fluent",) if q else ("MC_TwinGen_mixed2_fluent", "MC_TwinGen_mixed3", "MC_TwinGen_transfer1"):
+        mprogs, res = behaviours.generate(cfg, timeout=3000)
+        if not mprogs:
+            run.machinery_errors.append(f"behaviour generation with {cfg} failed: {res.errors[:2]}")
+        run.states += res.distinct
+        run.transitions += res.generated
+        if q and len(mprogs) > 400:
+            # quick tier: a seeded sample of the enumerated behaviours (thorough replays all of them)
+            k = len(mprogs) // 400 + 1
+            mprogs = mprogs[r.randrange(k)::k]
+        run.extra.setdefault("model_behaviours_replayed", 0)
+        run.extra["model_behaviours_replayed"] += len(mprogs)
+        progs += mprogs
     run_programs(run, progs)
     run.assumptions += [
         "volumes on an exact grid (k x unit) so that float arithmetic is exact; record lexer and projection are trusted",
